@@ -432,11 +432,11 @@ fn workers_round(out: &mut Out, r: &mut Rng, nworkers: usize, nclients: usize, p
         out.skip();
         return;
     }
-    // a burst must fit the kernel's default receive buffer of a worker socket (about 90 datagrams of
-    // 1 KiB; the kernel spreads sockets over workers unevenly): keep at most 72 per worker in flight, or
-    // the kernel — not the server — drops requests
+    // a burst must fit the kernel's default receive buffer of ONE worker socket (about 90 datagrams of
+    // 1 KiB): SO_REUSEPORT hashes source sockets onto workers unevenly, in the worst case all onto one,
+    // so at most 72 datagrams are in flight in total, or the kernel — not the server — drops requests
     let (nclients, per_client) = if burst {
-        let cap = 72 * nworkers;
+        let cap = 72;
         let nc = nclients.min(cap);
         (nc, (cap / nc).clamp(1, per_client))
     } else {
